@@ -1,6 +1,8 @@
 package main
 
 import (
+	"crypto/ed25519"
+	"encoding/json"
 	"time"
 	"runtime"
 	"os"
@@ -12,6 +14,7 @@ import (
 	"github.com/lidofinance/dc4bc/client/api/dto"
 	"github.com/lidofinance/dc4bc/client/modules/state"
 	"github.com/lidofinance/dc4bc/fsm/fsm"
+	"github.com/lidofinance/dc4bc/fsm/types/requests"
 	"github.com/lidofinance/dc4bc/storage"
 )
 
@@ -211,14 +214,33 @@ func scenarioC14(c *Ctx) {
 		model  bool // compared call by call with the small-step model
 		class  string
 		approve bool // the request is ApproveParticipation (the invitation) instead of an operation result
+		reinit  bool // the request finishes a reinitialisation (operation_processed_successfully)
 	}
 	pairs := []pair{
 		// the invitation operation is answered while the poller applies a confirmation that creates nothing
-		{"result || plain-message", h[:1], h[2], false, "result || plain-message", false},
-		{"approve-participation || plain-message", h[:1], h[2], false, "result || plain-message", true},
-		{"approve-participation || operation-producing-message", append(append([]Item{}, h[:1]...), h[2], h[3]), h[1], false, "result || operation-producing-message", true},
+		{"result || plain-message", h[:1], h[2], false, "result || plain-message", false, false},
+		{"approve-participation || plain-message", h[:1], h[2], false, "result || plain-message", true, false},
+		{"approve-participation || operation-producing-message", append(append([]Item{}, h[:1]...), h[2], h[3]), h[1], false, "result || operation-producing-message", true, false},
 		// ... while the poller applies the LAST confirmation, which creates the commits operation
-		{"result || operation-producing-message", append(append([]Item{}, h[:1]...), h[2], h[3]), h[1], true, "result || operation-producing-message", false},
+		{"result || operation-producing-message", append(append([]Item{}, h[:1]...), h[2], h[3]), h[1], true, "result || operation-producing-message", false, false},
+	}
+	// two rounds alive on the node: a request for round A while the poller applies a message of round B
+	// (the pool, the tombstones and the round store are node-wide)
+	hB := w.Honest("round-c14-B", me)
+	pairs = append(pairs,
+		pair{"approve-participation (round A) || opening proposal of round B", h[:1], hB[0], false, "result || operation-producing-message", true, false},
+		pair{"result (round A) || opening proposal of round B", h[:1], hB[0], false, "result || operation-producing-message", false, false})
+	// finishing a reinitialisation (the request loads the round, installs the public polynomial and
+	// saves it) while the poller applies a batch proposal for that round
+	{
+		roundOld := "round-c14-reinit"
+		body := w.ReDKGOf(dkgPart(w.Honest(roundOld, me)))
+		tasks := w.Tasks("batch-R")
+		data, _ := json.Marshal(requests.SigningBatchProposalStartRequest{BatchID: "batch-R", ParticipantId: 1, CreatedAt: T(400), SigningTasks: tasks})
+		nk := w.NewKey(w.Users[1])
+		prop := storage.Message{DkgRoundID: roundOld, Event: "event_signing_start", Data: data, SenderAddr: w.Users[1], Signature: ed25519.Sign(nk.Priv, data)}
+		pairs = append(pairs, pair{"finish-reinit || batch proposal for the reinitialised round", []Item{w.ReinitItem(roundOld, body, nil, "reinit")},
+			mkItem(prop, fmt.Sprintf("by %d %d", tok.TokB(nk.Pub), tok.TokB(data)), NOWMARK, "start-after-reinit"), false, "result || operation-producing-message", false, true})
 	}
 	if !c.Quick() {
 		// every (request kind, message kind) pair of the ceremony: the oldest pending operation is
@@ -236,7 +258,7 @@ func scenarioC14(c *Ctx) {
 			panic("no such message " + label)
 		}
 		add := func(name string, upto int, class string) {
-			pairs = append(pairs, pair{name, h[:upto], h[upto], false, class, false})
+			pairs = append(pairs, pair{name, h[:upto], h[upto], false, class, false, false})
 		}
 		add("result || commit (plain)", idx("commit", 1), "result || plain-message")
 		add("result || last commit (creates the deals operation)", idx("commit", w.N-1), "result || operation-producing-message")
@@ -281,6 +303,12 @@ func scenarioC14(c *Ctx) {
 			fa := func() { errA = na.ProcessOperation(mkRes()) }
 			if p.approve {
 				fa = func() { errA = na.ApproveParticipation(&dto.OperationIdDTO{OperationID: o.ID}) }
+			}
+			if p.reinit {
+				fa = func() {
+					errA = na.ProcessOperation(&dto.OperationDTO{ID: o.ID, Type: string(o.Type), Payload: o.Payload, CreatedAt: o.CreatedAt, DkgID: o.DKGIdentifier,
+						Event: "operation_processed_successfully", ExtraData: w.KS.PolyBz})
+				}
 			}
 			fb := func() { errB = nb.ProcessMessage(p.msg.In.Msg) }
 			if os.Getenv("C14_DEBUG") != "" {
